@@ -466,6 +466,47 @@ def check_geometry(i0, i1, i2, i3, axis_i, angle_i, shape_i):
         cen = np.asarray(struc.centroid(coords), dtype=float)
         if not np.allclose(cen, Q.mean(axis=0), atol=2e-4):
             return f"centroid ({label})"
+        # periodic index variants == coordinate variants with the SAME box, wherever the box comes from: the array's own
+        # box, an explicit box that overrides it, an explicit box for an array without one, plain coordinates
+        own = np.diag([5.0, 6.0, 7.0]).astype(np.float32)
+        other = np.array([[3.0, 0, 0], [0, 4.5, 0], [0, 0, 2.5]], dtype=np.float32)
+        arr = struc.AtomArray(4)
+        arr.coord = coords
+        arr.box = own
+        nobox = arr.copy()
+        nobox.box = None
+        pairs, trip, quad = np.array([[0, 1], [3, 2]]), np.array([[0, 1, 2]]), np.array([[0, 1, 2, 3]])
+        for what, obj, kw, bx in (("own box", arr, {}, own), ("explicit box overriding the own box", arr, dict(box=other), other),
+                                  ("explicit box, array without box", nobox, dict(box=other), other), ("coordinates + box", coords, dict(box=other), other)):
+            w_disp = np.asarray(struc.displacement(coords[pairs[:, 0]], coords[pairs[:, 1]], box=bx), dtype=float)
+            w_dist = np.asarray(struc.distance(coords[pairs[:, 0]], coords[pairs[:, 1]], box=bx), dtype=float)
+            w_ang = np.asarray(struc.angle(coords[trip[:, 0]], coords[trip[:, 1]], coords[trip[:, 2]], box=bx), dtype=float)
+            w_dih = np.asarray(struc.dihedral(coords[quad[:, 0]], coords[quad[:, 1]], coords[quad[:, 2]], coords[quad[:, 3]], box=bx), dtype=float)
+            for fn, idx, want in (("index_displacement", pairs, w_disp), ("index_distance", pairs, w_dist), ("index_angle", trip, w_ang),
+                                  ("index_dihedral", quad, w_dih)):
+                g = np.asarray(getattr(struc, fn)(obj, idx, periodic=True, **kw), dtype=float)
+                if not np.allclose(g, want, atol=2e-4):
+                    return f"{fn}(periodic=True, {what}) = {np.ravel(g)[:3].tolist()}, coordinate-based function with that box: {np.ravel(want)[:3].tolist()} ({label})"
+    # rigid motions produced by the library itself leave distance, angle and SIGNED dihedral unchanged
+    arr = struc.AtomArray(4)
+    arr.coord = P.astype(np.float32)
+    ang_r = [0.0, 0.7, np.pi / 2, 2.5, np.pi][angle_i]
+    ax = [(1, 0, 0), (0, 1, 0), (0, 0, 1), (1, 1, 1), (1, -2, 0.5)][axis_i]
+    moved = [("translate", struc.translate(arr, (3.0, -7.0, 11.0))),
+             ("rotate", struc.rotate(arr, [ang_r, 0.3, -1.1])),
+             ("rotate_centered", struc.rotate_centered(arr, [0.4, ang_r, 2.0])),
+             ("rotate_about_axis", struc.rotate_about_axis(arr, ax, ang_r, support=(1.0, 2.0, -3.0))),
+             ("align_vectors", struc.align_vectors(arr, (1.0, 0.5, -2.0), ax, (0.0, 1.0, 0.0), (2.0, 2.0, 2.0)))]
+    for order in (None, (0, 1, 2), (2, 1, 0), (1, 0, 2), (0, 2, 1), (1, 2, 0), (2, 0, 1)):
+        moved.append((f"orient_principal_components(order={order})", struc.orient_principal_components(arr, order=order)))
+        moved.append((f"orient_principal_components(coordinates, order={order})", struc.orient_principal_components(arr.coord, order=order)))
+    for what, m in moved:
+        mc = np.asarray(struc.coord(m), dtype=np.float32)
+        got = (float(struc.distance(mc[0], mc[1])), float(struc.angle(mc[0], mc[1], mc[2])), float(struc.dihedral(mc[0], mc[1], mc[2], mc[3])))
+        for name, g, want in zip(("distance", "angle", "dihedral"), got, (dist, ang, dih)):
+            dev = abs(g - want) if name != "dihedral" else abs((g - want + np.pi) % (2 * np.pi) - np.pi)
+            if dev > 2e-3:
+                return f"{what} is not a rigid motion: {name} {want:.5f} -> {g:.5f}"
     return None
 
 
